@@ -11,8 +11,8 @@
                                      a value dump (same syntax as the input), `ERR` or `UNMODELLED`
                            tp tpp = Ser.ser_toml_root, ep epp doc = Ser.ser_edit_root (read back by De.de_value),
                            val = Ser.tv_ser, tab = Ser.tv_ser_table (read back by De.tv_de).
-     routes <type> <doc> <val> <tree>      (C13) every decoding route on the TREE the two texts were rendered from
-                           (lib/props/c13.py passes it as a fourth argument; the harness reads the texts)
+     routes <type> <doc> <val> <dtree> <vtree>   (C13) every decoding route on the TREES the two texts denote
+                           (lib/props/c13.py passes them as extra arguments, entries in document order; the harness reads the texts)
      routes_ser <type> <value>             (C13) the same on the trees toml::to_string / toml::ser::ValueSerializer build
      tryfrom <type> <value>                (C13) Value::try_from / Table::try_from against the tree of the serialized text
      consts                the reserved names the model assumes (compared with the crates' constants)
@@ -337,16 +337,17 @@ Definition val_routes_line (t : ty) (x : tomlval) : list bytes :=
   [str "tvd=" ++ show_dec (decode R_tvd t x); str "evd=" ++ show_dec (decode R_evd t x);
    str "tvdval=" ++ show_dec (decode R_tvdval t x)].
 
-Definition cmd_routes (tys tree : bytes) : bytes :=
+Definition cmd_routes (tys dtree vtree : bytes) : bytes :=
   let tt := split_on ","%byte tys in
-  let xt := split_on ","%byte tree in
-  match parse_ty (S (List.length tt)) tt, parse_tv (S (List.length xt)) xt with
-  | PUnmodelled, _ | _, PUnmodelled => str "-"
-  | POk t [], POk x [] =>
-    (* the document text is rendered from the tree when it is a table, else it is the empty document *)
-    let doc := match x with VTab _ => x | _ => VTab [] end in
+  let dt := split_on ","%byte dtree in
+  let xt := split_on ","%byte vtree in
+  match parse_ty (S (List.length tt)) tt, parse_tv (S (List.length dt)) dt, parse_tv (S (List.length xt)) xt with
+  | PUnmodelled, _, _ | _, PUnmodelled, _ | _, _, PUnmodelled => str "-"
+  | POk t [], POk doc [], POk x [] =>
+    (* doc: the tree of the document text (the empty document when the value is not a table), entries in
+       document order; x: the tree of the single-value text *)
     join (str " ") (str "valid=*" :: doc_routes_line t doc ++ val_routes_line t x)
-  | _, _ => str "BADCASE"
+  | _, _, _ => str "BADCASE"
   end.
 
 Definition show_head (name : string) (r : result tomlval) : bytes :=
@@ -398,6 +399,6 @@ Definition run_cmd (name : bytes) (args : list bytes) : bytes :=
          else if is name "routes_ser" then cmd_routes_ser tys vals
          else if is name "tryfrom" then cmd_tryfrom tys vals
          else str "unknown-command"
-       | [tys; _; _; tree] => if is name "routes" then cmd_routes tys tree else str "unknown-command"
+       | [tys; _; _; dtree; vtree] => if is name "routes" then cmd_routes tys dtree vtree else str "unknown-command"
        | _ => if is name "routes" then str "-" else str "bad-args"
        end.
